@@ -230,11 +230,19 @@ func runAll(rep *core.Report, scripts []Script, seed int64, thorough bool, paral
 	var wg sync.WaitGroup
 	var mu sync.Mutex
 	tot := totals{cats: map[string]int{}}
+	const maxViolations = 8
+	skipped := 0
 	for w := 0; w < parallel; w++ {
 		wg.Add(1)
 		go func() {
 			defer wg.Done()
 			for j := range jobs {
+				if rep.ViolationCount() >= maxViolations {
+					mu.Lock()
+					skipped++
+					mu.Unlock()
+					continue // enough failing scripts to report; each further one may cost a 30 s wait
+				}
 				cfg := Config{Config: base[(j.i+int(seed))%len(base)], Pace: (j.i/len(base) + int(seed)) % 3}
 				r := runOne(rep, j.sc, cfg)
 				mu.Lock()
@@ -265,6 +273,9 @@ func runAll(rep *core.Report, scripts []Script, seed int64, thorough bool, paral
 	add("multidb_dropdb_frames_seen", tot.drops)
 	add("multidb_stream_requests", tot.streams)
 	rep.Extra["multidb_scripts_by_category"] = tot.cats
+	if skipped > 0 {
+		rep.Note("multidb stage: %d scripts not executed after %d violations had been recorded", skipped, maxViolations)
+	}
 	if len(scripts) > 0 {
 		rep.Sample(map[string]any{"multidb_script": scripts[len(scripts)/2].Key()})
 	}
